@@ -17,7 +17,7 @@ from .ctx import SimDeadlock
 
 NEW, RUNNABLE, BLOCKED, DONE = 'new', 'runnable', 'blocked', 'done'
 
-HANG_TIMEOUT = 120      # real seconds; a harness bug guard, never a verdict
+HANG_TIMEOUT = 400      # real seconds; a harness bug guard, never a verdict
 
 
 class HarnessHang(Exception):
